@@ -6,6 +6,7 @@ import Driver.DiamPrimIO
 import Driver.ConfigIO
 import Driver.BerIO
 import Driver.CdrDumpIO
+import Driver.PeerIO
 /-
   Line-protocol driver: one operation per input line, one canonical line per operation.
   The first token selects the stream (model); stateful streams keep their state in `DState`.
@@ -26,6 +27,7 @@ def step (s : DState) (line : String) : DState × String :=
   | "chf" :: t => let (a, o) := chfOp noSplit s.chf t; ({ s with chf := a }, o)
   | "conv" :: t => (s, convOp t)
   | "ber" :: t => (s, berOp t)
+  | "peer" :: t => (s, peerOp t)
   | "c03" :: t => (s, c03Op ("c03" :: t))
   | "config" :: t => (s, configOp t)
   | "diam" :: t => (s, diamOp t)
